@@ -129,8 +129,8 @@ def _hyp_case(rng, order):
   return c
 
 
-ALGO_PATTERNS = ['empty1', 'empty2', 'empty-then-empty', 'mixed', 'normal']
-ALGO_PATTERNS_MORE = ['empty3', 'single', 'all', 'mixed-tail', 'normal-then-empty', 'single-then-all']
+ALGO_PATTERNS = ['empty1', 'empty2', 'empty-then-empty', 'mixed', 'normal', 'no-clients']
+ALGO_PATTERNS_MORE = ['empty3', 'single', 'all', 'mixed-tail', 'normal-then-empty', 'single-then-all', 'normal-then-no-clients']
 
 
 def _algo_case(rng, pattern, reg):
@@ -142,9 +142,9 @@ def _algo_case(rng, pattern, reg):
     c['dom'] = [rng.choice([0, 1]) for _ in range(9)]   # a domain without any example
   r1 = {'empty1': [[]], 'empty2': [[], []], 'empty-then-empty': [[]], 'mixed': [[], a, []], 'normal': [a, b],
         'empty3': [[], [], []], 'single': [cc], 'all': [a, b, cc], 'mixed-tail': [a, b, []],
-        'normal-then-empty': [b, a], 'single-then-all': [b]}[pattern]
+        'normal-then-empty': [b, a], 'single-then-all': [b], 'no-clients': [], 'normal-then-no-clients': [a, cc]}[pattern]
   r2 = {'empty-then-empty': [[], []], 'mixed': [b, [], cc], 'empty3': [a], 'all': [cc, [], a], 'normal-then-empty': [[], []],
-        'single-then-all': [a, b, cc]}.get(pattern, [b, cc])
+        'single-then-all': [a, b, cc], 'normal-then-no-clients': []}.get(pattern, [b, cc])
   c.update({'kind': 'algo', 'pattern': pattern, 'rounds': [r1, r2]})
   del c['geos'], c['split']
   return c
@@ -153,7 +153,7 @@ def _algo_case(rng, pattern, reg):
 def generate(tier, rng):
   if tier == 'quick':
     ns = [0, 1, 2, 3, 5, 8, 9, 12]
-    reps = 6
+    reps = 4
   elif tier == 'search':
     ns = list(range(0, 13))
     reps = 8
@@ -386,6 +386,11 @@ def _algo(kind, reg, geo):
     build = mime.mime if kind == 'mime' else mime_lite.mime_lite
     alg = build(per_example_loss=api['pel'], base_optimizer=optimizers.sgd(LR, momentum=MOM), client_batch_hparams=cb,
                 grads_batch_hparams=pb, server_learning_rate=SLR, regularizer=api['regf'])
+  elif kind == 'hypc':
+    from fedjax.algorithms import hyp_cluster
+    alg = hyp_cluster.hyp_cluster(per_example_loss=api['pel'], client_optimizer=optimizers.sgd(LR),
+                                  server_optimizer=optimizers.sgd(1.0), maximization_batch_hparams=pb,
+                                  expectation_batch_hparams=cb, regularizer=api['regf'])
   else:
     alg = agnostic_fed_avg.agnostic_federated_averaging(
         per_example_loss=api['pel'], client_optimizer=optimizers.sgd(LR), server_optimizer=optimizers.sgd(1.0),
@@ -405,16 +410,31 @@ def _leaves(tree):
 
 def _run_algo(case):
   import jax
-  obs = {'algos': {}}
-  for kind in ('mime', 'mime_lite', 'agnostic'):
+  obs = {'algos': {}, 'caller_owned': []}
+  for kind in ('mime', 'mime_lite', 'agnostic', 'hypc'):
     per_geo = []
-    for geo in ALGO_GEOS:
+    for gj, geo in enumerate(ALGO_GEOS):
       alg = _algo(kind, case['reg'], geo)
-      state = alg.init(_params(case))
+      init_arg = [_params(case), _params(case, 2)] if kind == 'hypc' else _params(case)
+      state = alg.init(init_arg)
+      init_snap = _snapshot(state)
       rounds = []
+      kept = []
       for cohort in case['rounds']:
-        clients = [(b'c%d' % i, _dataset(case, rows), jax.random.PRNGKey(i)) for i, rows in enumerate(cohort)]
-        state, _ = alg.apply(state, clients)
+        ids = [(b'c%d' % i) if gj % 2 == 0 else ('c%d' % i) for i in range(len(cohort))]     # bytes / str client ids
+        clients = [(cid, _dataset(case, rows), jax.random.PRNGKey(i)) for i, (cid, rows) in enumerate(zip(ids, cohort))]
+        if gj == 1:
+          clients = tuple(clients)                                                          # a tuple instead of a list
+        before, snap = state, _snapshot(state)
+        state, diag = alg.apply(state, clients)
+        if not _unchanged(before, snap):
+          obs['caller_owned'].append(f'{kind}: the input server state changed (or was deleted) during apply')
+        kept.append((state, _snapshot(state)))
+        if kind == 'hypc':
+          o = {'params': _vec(state.cluster_params[0]) + _vec(state.cluster_params[1]), 'all_leaves': _leaves(state),
+               'cluster_ids': [int(diag[cid]['cluster_id']) for cid in ids]}
+          rounds.append(o)
+          continue
         o = {'params': _vec(state.params), 'all_leaves': _leaves(state)}
         if kind == 'agnostic':
           o['domain_weights'] = [float(v) for v in np.asarray(state.domain_weights)]
@@ -423,6 +443,11 @@ def _run_algo(case):
           # optax sgd+momentum: one trace tree shaped like params ({'b': (), 'w': (2,)} in key order)
           o['trace'] = ([float(v) for v in np.asarray(tr[1])] + [float(np.asarray(tr[0]))]) if len(tr) == 2 else None
         rounds.append(o)
+      for t, (st, sn) in enumerate(kept):
+        if not _unchanged(st, sn):
+          obs['caller_owned'].append(f'{kind}: the server state returned by round {t + 1} changed after later calls')
+      if not _unchanged(alg.init(init_arg), init_snap):
+        obs['caller_owned'].append(f'{kind}: init() after the applies differs from the first init()')
       entry = {'geo': list(geo), 'rounds': rounds}
       if kind == 'mime':
         entry['layout1'] = [_layout(_materialise(case, ['pb', geo[0], geo[1]], rows)) for rows in case['rounds'][0]]
@@ -477,6 +502,41 @@ def _oracle_algo(case, obs):
         ref = (entry['geo'], last)
       elif not all(_anear(a, b) for a, b in zip(last['all_leaves'], ref[1]['all_leaves'])):
         add(f'{kind}.algorithm.geometry', f'final state under grads batch {entry["geo"]} {last["all_leaves"]} differs from {ref[0]} {ref[1]["all_leaves"]}')
+  for msg in obs.get('caller_owned', [])[:1]:
+    add('algorithm.caller-owned-state', msg)
+  ref = None
+  for entry in obs['algos'].get('hypc', []):
+    ps = [np.array(p0), np.array([case['w2'][0] / 4, case['w2'][1] / 4, case['b2'] / 4])]
+    judge = True
+    for t, (cohort, o) in enumerate(zip(case['rounds'], entry['rounds'])):
+      if not all(math.isfinite(v) for v in o['all_leaves']):
+        add('hyp-cluster.algorithm.nonfinite-state', f'round {t + 1} (maximization batch {entry["geo"]}): non-finite leaf in the new server state')
+        break
+      acc = [[np.zeros(3), 0] for _ in ps]
+      for ci, rows in enumerate(cohort):
+        ls = []
+        for k, p in enumerate(ps):
+          loss, G, r, dr = _closed_at(case, p, rows)
+          ls.append(((loss.mean() if rows else 0.0) + r, (G.mean(axis=0) + dr) if rows else None))
+        if abs(ls[0][0] - ls[1][0]) < 1e-3:
+          judge = False                     # a numerical tie between the clusters: assignment not judged
+          break
+        k = 0 if ls[0][0] < ls[1][0] else 1
+        if o['cluster_ids'][ci] != k:
+          add('hyp-cluster.algorithm.assignment', f'round {t + 1} (maximization batch {entry["geo"]}): client {ci} assigned to cluster {o["cluster_ids"][ci]}, average losses incl. regulariser {[v[0] for v in ls]}')
+        if rows:
+          acc[k][0] += len(rows) * LR * ls[k][1]
+          acc[k][1] += len(rows)
+      if not judge:
+        break
+      ps = [p - a / n if n else p for p, (a, n) in zip(ps, acc)]
+      if not all(_anear(a, b) for a, b in zip(o['params'], list(ps[0]) + list(ps[1]))):
+        add('hyp-cluster.algorithm.params', f'round {t + 1} (maximization batch {entry["geo"]}): cluster params {o["params"]}, closed form {list(ps[0]) + list(ps[1])}')
+    last = entry['rounds'][-1]
+    if ref is None:
+      ref = (entry['geo'], last)
+    elif not all(_anear(a, b) for a, b in zip(last['all_leaves'], ref[1]['all_leaves'])) or last['cluster_ids'] != ref[1]['cluster_ids']:
+      add('hyp-cluster.algorithm.geometry', f'final state under maximization batch {entry["geo"]} {last["all_leaves"]} differs from {ref[0]} {ref[1]["all_leaves"]}')
   ref = None
   for entry in obs['algos']['agnostic']:
     p, w = np.array(p0), np.array(ALPHA, np.float64)
